@@ -437,7 +437,7 @@ func (e *Env) markerDiscipline() {
 
 func init() {
 	register("C05", Meta{
-		Explanation: "Constant propagation through applySpace over its complete finite input partition (SpaceType × cursor-at-fresh-line × Bad-node-After, 24 classes): the number of line breaks emitted equals the declared value of the constant (None 0, NewLine 1, EmptyLine 2), minus one when the cursor already sits directly after a line break, floored at zero; Bad nodes are followed by an empty line; each break records one line start, steps over it and sets the fresh-line marker, which is set nowhere else than directly after a line break; every restore case applies Before first and After last. Decides the restorer's half of the non-additive rule (what is handed to go/printer); the visible max(After,Before) outcome is produced by go/printer collapsing line gaps and is not decided.",
+		Explanation: "Abstract interpretation of the restorer's line-break state machine against a reference: applySpace over its complete finite input partition (SpaceType × cursor-at-fresh-line × Bad-node-After, 24 classes) — line breaks emitted = declared value of the constant (None 0, NewLine 1, EmptyLine 2), minus one on a fresh line, floored at zero; Bad nodes are followed by an empty line; fresh-line marker on exit right. applyDecorations for ALL decoration lists: product of the code's abstract state (marker = cursor, bool/int locals) with the reference state explored to a fixpoint over five decoration classes and 16 environments — per decoration the line breaks recorded and the comment sink, after every prefix the marker on exit. Each line-break block records one line start at or after the entry cursor and leaves the cursor behind it; every restore case applies Before first and After last. Decides the restorer's half of the non-additive rule (what is handed to go/printer); the visible max(After,Before) outcome is produced by go/printer collapsing line gaps and is not decided.",
 		NotCovered:  []string{"go/printer's collapsing of line gaps (the visible max(After,Before) outcome)", "which newlines the decorator turns into Before/After (link() pass 2)"},
 	}, func(e *Env) {
 		e.C05Space()
